@@ -20,6 +20,7 @@ Detection is by operation HISTORIES over a shared pool of schemas and caller-own
 
 Only public API is used on d42 objects (s.props iteration / get for the dump is read-only).
 """
+import copy
 import os
 import pickle
 import random
@@ -1426,6 +1427,78 @@ def _describe(f):
     return f"{kind} at step {step}: " + ", ".join(f"{k}={v!r}"[:300] for k, v in detail.items())
 
 
+def probe_dict_subclasses(ctx):
+    """Values that are dict subclasses whose __missing__ invents (defaultdict: inserts) members:
+    no operation may mutate them, and the outcome must be the one for the equal plain dict."""
+    import collections
+    r = ctx.rng
+    n = 0
+    ops = {
+        "validate": lambda s, v: [type(e).__name__ for e in validate(s, v).get_errors()],
+        "substitute": lambda s, v: repr(s % v),
+        "eq": lambda s, v: s == v,
+    }
+    wrap = [("collections.defaultdict(int, %s)", lambda d: collections.defaultdict(int, d)),
+            ("collections.defaultdict(list, %s)", lambda d: collections.defaultdict(list, d)),
+            ("collections.Counter(%s)", lambda d: collections.Counter(d))]
+    for _ in range(ctx.scale(120, 1500)):
+        ssrc, s = gen.gen_schema(r, r.randint(1, 3))
+        try:
+            v = gen.conform(r, s)
+        except Exception:  # noqa
+            continue
+        cands = [v] + [p for p in gen.perturbations(r, v, limit=8)]
+        for v0 in cands:
+            pos = [p for p in gen.positions(v0) if type(_at(v0, p)) is dict]
+            if not pos:
+                continue
+            p = r.choice(pos)
+            wsrc, w = r.choice(wrap)
+            inner = _at(v0, p)
+            try:
+                wrapped = gen.replace_at(copy.deepcopy(v0), p, w(copy.deepcopy(inner)))
+            except Exception:  # noqa
+                continue
+            plain = copy.deepcopy(v0)
+            for name, f in ops.items():
+                before = _plain_dump(wrapped)
+                try:
+                    got = ("ok", f(s, wrapped))
+                except Exception as e:  # noqa
+                    got = ("raise", type(e).__name__)
+                after = _plain_dump(wrapped)
+                try:
+                    want = ("ok", f(s, copy.deepcopy(plain)))
+                except Exception as e:  # noqa
+                    want = ("raise", type(e).__name__)
+                n += 1
+                rp = {"kind": "input", "schema": ssrc, "value": gen.vsrc(v0), "wrapped_at": list(p), "wrapper": wsrc,
+                      "operation": name}
+                if before != after:
+                    rp.update(observed=f"value after {name}: {after[:300]}", expected=f"unchanged: {before[:300]}")
+                    ctx.violation(f"{name} mutated a value passed in (a dict subclass with __missing__)", rp)
+                    return n
+                if got != want:
+                    rp.update(observed=str(got)[:300], expected=f"as for the equal plain dict: {str(want)[:300]}")
+                    ctx.violation(f"{name} on a dict subclass with __missing__ differs from the equal plain dict", rp)
+                    return n
+    return n
+
+
+def _at(v, pos):
+    for k in pos:
+        v = v[k]
+    return v
+
+
+def _plain_dump(v):
+    if isinstance(v, dict):
+        return "{" + ", ".join(f"{k!r}: {_plain_dump(x)}" for k, x in v.items()) + "}"
+    if isinstance(v, list):
+        return "[" + ", ".join(_plain_dump(x) for x in v) + "]"
+    return repr(v)
+
+
 def run(ctx):
     n_hist = ctx.scale(60, 500)
     n_ops = ctx.scale(40, 200)
@@ -1438,6 +1511,8 @@ def run(ctx):
         _run(ctx, pristine, n_hist, n_ops, depth, n_slices, shrink_budget, model_hist)
     finally:
         pristine.close()
+    probes = probe_dict_subclasses(ctx)
+    ctx.coverage.setdefault("distribution", {})["dict_subclass_probes"] = probes
 
 
 def _run(ctx, pristine, n_hist, n_ops, depth, n_slices, shrink_budget, model_hist):
